@@ -98,3 +98,117 @@ pub async fn claimed_name_grid(_a: &Value) -> Value {
     }
     json!({"cells": out, "returning": returning})
 }
+
+// ---- C01 / C03: a certificate is public; only the holder of its private key may act under it ----------------------------------------
+// a rustls identity whose CERTIFICATE is `cert` but whose handshake signatures are made with the key derived from `signer_seed`
+#[derive(Debug)]
+struct Fixed(Arc<rustls::sign::CertifiedKey>);
+impl rustls::client::ResolvesClientCert for Fixed {
+    fn resolve(&self, _hints: &[&[u8]], _schemes: &[rustls::SignatureScheme]) -> Option<Arc<rustls::sign::CertifiedKey>> { Some(self.0.clone()) }
+    fn has_certs(&self) -> bool { true }
+}
+impl rustls::server::ResolvesServerCert for Fixed {
+    fn resolve(&self, _hello: rustls::server::ClientHello<'_>) -> Option<Arc<rustls::sign::CertifiedKey>> { Some(self.0.clone()) }
+}
+fn key_and_cert(seed: u8, cert_name: &str) -> (rustls_pki_types::PrivatePkcs8KeyDer<'static>, CertificateDer<'static>, [u8; 32]) {
+    let pkcs8 = ed25519::KeypairBytes { secret_key: [seed; 32], public_key: None }.to_pkcs8_der().unwrap();
+    let p8 = rustls_pki_types::PrivatePkcs8KeyDer::from(pkcs8.as_bytes().to_vec());
+    let kp = rcgen::KeyPair::from_der_and_sign_algo(&PrivateKeyDer::Pkcs8(p8.clone_key()), &rcgen::PKCS_ED25519).unwrap();
+    let public: [u8; 32] = kp.public_key_raw().try_into().unwrap();
+    let cert = rcgen::CertificateParams::new(vec![cert_name.to_owned()]).unwrap().self_signed(&kp).unwrap().der().to_owned();
+    (p8, cert, public)
+}
+fn identity(cert: CertificateDer<'static>, signer_seed: u8) -> Arc<Fixed> {
+    let (p8, _, _) = key_and_cert(signer_seed, "net-a");
+    let signer = rustls::crypto::ring::sign::any_eddsa_type(&p8).unwrap();
+    Arc::new(Fixed(Arc::new(rustls::sign::CertifiedKey::new(vec![cert], signer))))
+}
+fn dialer_presenting(cert: CertificateDer<'static>, signer_seed: u8) -> quinn::Endpoint {
+    let crypto = rustls::ClientConfig::builder_with_provider(Arc::new(rustls::crypto::ring::default_provider()))
+        .with_protocol_versions(&[&rustls::version::TLS13]).unwrap()
+        .dangerous().with_custom_certificate_verifier(Arc::new(AcceptAny))
+        .with_client_cert_resolver(identity(cert, signer_seed));
+    let cfg = quinn::ClientConfig::new(Arc::new(quinn::crypto::rustls::QuicClientConfig::try_from(crypto).unwrap()));
+    let mut ep = quinn::Endpoint::client("127.0.0.1:0".parse().unwrap()).unwrap();
+    ep.set_default_client_config(cfg);
+    ep
+}
+// a listener that is not anemo: shows `cert`, signs with `signer_seed`, asks for no client certificate and acknowledges every connection the way anemo does
+fn listener_presenting(cert: CertificateDer<'static>, signer_seed: u8) -> quinn::Endpoint {
+    let crypto = rustls::ServerConfig::builder_with_provider(Arc::new(rustls::crypto::ring::default_provider()))
+        .with_protocol_versions(&[&rustls::version::TLS13]).unwrap()
+        .with_no_client_auth()
+        .with_cert_resolver(identity(cert, signer_seed));
+    let cfg = quinn::ServerConfig::with_crypto(Arc::new(quinn::crypto::rustls::QuicServerConfig::try_from(crypto).unwrap()));
+    let ep = quinn::Endpoint::server(cfg, "127.0.0.1:0".parse().unwrap()).unwrap();
+    let acc = ep.clone();
+    tokio::spawn(async move {
+        while let Some(incoming) = acc.accept().await {
+            tokio::spawn(async move {
+                if let Ok(conn) = incoming.await {
+                    if let Ok(mut tx) = conn.open_uni().await {
+                        let _ = tx.write_all(b"anemo\x00\x01\x00").await;
+                        let _ = tx.finish();
+                        let _ = tx.stopped().await;
+                    }
+                    tokio::time::sleep(Duration::from_millis(1500)).await;
+                }
+            });
+        }
+    });
+    ep
+}
+async fn raw_dial_admitted(ep: &quinn::Endpoint, l: &anemo::Network, id: anemo::PeerId) -> Value {
+    let (mut got_ack, mut listed) = (false, false);
+    if let Ok(connecting) = ep.connect(l.local_addr(), "net-a") {
+        if let Ok(Ok(conn)) = tokio::time::timeout(Duration::from_millis(1500), connecting).await {
+            if let Ok(Ok(mut rx)) = tokio::time::timeout(Duration::from_millis(700), conn.accept_uni()).await {
+                let mut buf = [0u8; 8];
+                got_ack = matches!(tokio::time::timeout(Duration::from_millis(500), rx.read_exact(&mut buf)).await, Ok(Ok(())));
+            }
+            for _ in 0..20 { if l.peers().contains(&id) { listed = true; break; } tokio::time::sleep(Duration::from_millis(10)).await; }
+            conn.close(0u32.into(), b"done");
+        }
+    }
+    for _ in 0..100 { if !l.peers().contains(&id) { break; } tokio::time::sleep(Duration::from_millis(10)).await; }
+    json!({"acknowledged": got_ack, "listed": listed})
+}
+/// histories in which somebody presents a certificate whose private key they do not hold, before and after the rightful holder used it
+pub async fn stolen_certificate(_a: &Value) -> Value {
+    let echo = || tower::ServiceExt::boxed_clone(tower::service_fn(|r: Request<Bytes>| async move { Ok::<_, std::convert::Infallible>(Response::new(r.into_body())) }));
+    let network = |key: u8| {
+        let mut c = Config::default();
+        c.connect_timeout_ms = Some(1500);
+        anemo::Network::bind("127.0.0.1:0").server_name("net-a").private_key([key; 32]).config(c).start(echo()).expect("network")
+    };
+    let (_, victim_cert, victim_pub) = key_and_cert(211, "net-a");
+    let victim = anemo::PeerId(victim_pub);
+    // (1) inbound: a dialer shows the victim's certificate to an anemo listener
+    let l = network(44);
+    let mut inbound = Vec::new();
+    for (who, signer) in [("thief_first", 212u8), ("holder", 211), ("thief_after_holder", 212), ("holder_again", 211), ("another_thief", 213)] {
+        let ep = dialer_presenting(victim_cert.clone(), signer);
+        let mut r = raw_dial_admitted(&ep, &l, victim).await;
+        r["who"] = json!(who); r["holds_the_private_key"] = json!(signer == 211);
+        inbound.push(r);
+        ep.close(0u32.into(), b"");
+    }
+    // (2) outbound: an anemo network dials a listener that shows the victim's certificate; with and without naming the identity it expects
+    let d = network(45);
+    let mut outbound = Vec::new();
+    for (who, signer) in [("thief_first", 212u8), ("holder", 211), ("thief_after_holder", 212), ("holder_again", 211)] {
+        for pinned in [false, true] {
+            let srv = listener_presenting(victim_cert.clone(), signer);
+            let addr = srv.local_addr().unwrap();
+            let res = if pinned { tokio::time::timeout(Duration::from_millis(4000), d.connect_with_peer_id(addr, victim)).await }
+                      else { tokio::time::timeout(Duration::from_millis(4000), d.connect(addr)).await };
+            let (ok, as_id) = match res { Ok(Ok(p)) => (true, Some(p.0[0])), _ => (false, None) };
+            let listed = d.peers().contains(&victim);
+            let _ = d.disconnect(victim);
+            srv.close(0u32.into(), b"");
+            for _ in 0..100 { if !d.peers().contains(&victim) { break; } tokio::time::sleep(Duration::from_millis(10)).await; }
+            outbound.push(json!({"who": who, "holds_the_private_key": signer == 211, "dial_names_the_identity": pinned, "connect_ok": ok, "listed": listed, "attributed_first_byte": as_id, "victim_first_byte": victim.0[0]}));
+        }
+    }
+    json!({"inbound": inbound, "outbound": outbound})
+}
